@@ -295,6 +295,46 @@ func matchSpec(fn *ssa.Function, in ssa.Instruction, spec string, selSend map[*s
 			return kind == "uses-literal-result" && fromLit(t.X)
 		}
 		return false
+	case "store-field-from-call":
+		// a store into the named field of the direct result of a call of the named function:
+		// "store-field-from-call:SubjectAltNames:UnsortedList"
+		parts := strings.SplitN(arg, ":", 2)
+		if len(parts) != 2 {
+			return false
+		}
+		st, ok := in.(*ssa.Store)
+		if !ok {
+			return false
+		}
+		fa, ok := st.Addr.(*ssa.FieldAddr)
+		if !ok || valueName(fn, fa) != parts[0] {
+			return false
+		}
+		c, ok := st.Val.(*ssa.Call)
+		if !ok {
+			return false
+		}
+		f := c.Call.StaticCallee()
+		return f != nil && originOf(f).Name() == parts[1]
+	case "call-on":
+		// a call of the named function or method whose receiver (first argument) is the named variable:
+		// "call-on:UnsortedList:sans"
+		parts := strings.SplitN(arg, ":", 2)
+		if len(parts) != 2 {
+			return false
+		}
+		c, ok := in.(*ssa.Call)
+		if !ok {
+			return false
+		}
+		n := ""
+		if f := c.Common().StaticCallee(); f != nil {
+			n = originOf(f).Name()
+		}
+		if n != parts[0] || len(c.Common().Args) == 0 {
+			return false
+		}
+		return rootName(fn, c.Common().Args[0], 0) == parts[1]
 	case "map-range-call":
 		// a call of the named function or method inside a loop that ranges over a Go map
 		if c, ok := in.(*ssa.Call); ok {
